@@ -30,6 +30,8 @@ def opaque_result(ex, st, ins, what):
         for (pth, srt, tk), leaf in zip(ex.m.layout(v.t), v.leaves):
             if srt == 'Int' and (ex.m.kind(tk) in ('pointer', 'map') or (ex.m.kind(tk) == 'slice' and pth.endswith('#arr'))):
                 st.assume(leaf < ex.entry_alloc)
+                if ex.external_bound is not None:
+                    st.assume(leaf < ex.external_bound)
         return v
     if ex.m.types[t]['kind'] == 'tuple':
         vals = []
@@ -814,7 +816,9 @@ def invoke_writes(ex, iface_t, method):
 
 def invoke(ex, st, frame, ins, recv, method, args):
     m = ex.m
-    c = ex.extern_contract('invoke:%s.%s' % (recv.t, method))
-    if c is not None:
-        return ex.call_extern_contract(st, frame, ins, 'invoke:%s.%s' % (recv.t, method), c, [recv] + args)
+    short = recv.t.rsplit('/', 1)[-1].split('.')[-1]
+    for nm in ('invoke:%s.%s' % (recv.t, method), 'invoke:%s.%s' % (short, method)):
+        c = ex.extern_contract(nm)
+        if c is not None:
+            return ex.call_extern_contract(st, frame, ins, nm, c, [recv] + args)
     return NOT_HANDLED
